@@ -12,40 +12,42 @@ section
 variable {π β : Type} {h : Hist π}
 
 /-- why an eligible commit is not a build -/
-def SkippedOk (h : Hist π) (pl : Plug π β) (builds : List (RB β)) (e : Nat) : Prop :=
+def SkippedOk (h : Hist π) (pl : Plug π β) (L : List Nat → Prop) (builds : List (RB β)) (e : Nat) : Prop :=
   h.isMatch e = false ∧
-  (pl.rel = false ∨ ∃ (cm : Commit π) (pbs : List (RB β)) (bumps : β), h.commits[e]? = some cm ∧ pbs.length ≤ 1 ∧ (∀ pb ∈ pbs, pb ∈ builds) ∧
-    pl.mkBumps cm.pins (pbs.map (·.bumps)) = .ok bumps ∧ pl.nonTrivial bumps = false)
+  (L [] ∨ ∃ (cm : Commit π) (pbs : List (RB β)) (bumps : β) (rel : List Nat), L rel ∧ h.commits[e]? = some cm ∧
+    pbs.length ≤ 1 ∧ (∀ pb ∈ pbs, pb ∈ builds) ∧
+    pl.mkBumps rel cm.pins (pbs.map (·.bumps)) = .ok bumps ∧ pl.nonTrivial bumps = false)
 
-def EligOk (h : Hist π) (pl : Plug π β) (rp0 : Repo β) (head : Nat) (st : St β) : Prop :=
+def EligOk (h : Hist π) (pl : Plug π β) (L : List Nat → Prop) (rp0 : Repo β) (head : Nat) (st : St β) : Prop :=
   ∀ e cl, classify st.rp e = some cl → classify rp0 e = none → Elig h head e →
     (∃ b ∈ st.rp.builds, isCurBuild st.rp b.iid = true ∧ ∃ rc, st.rp.rcs[b.iid]? = some rc ∧ rc.commit = e) ∨
-    SkippedOk h pl st.rp.builds e
+    SkippedOk h pl L st.rp.builds e
 
-theorem SkippedOk.mono {pl : Plug π β} {bs bs' : List (RB β)} (hsub : ∀ b ∈ bs, b ∈ bs') {e : Nat}
-    (hs : SkippedOk h pl bs e) : SkippedOk h pl bs' e := by
+theorem SkippedOk.mono {pl : Plug π β} {L : List Nat → Prop} {bs bs' : List (RB β)} (hsub : ∀ b ∈ bs, b ∈ bs') {e : Nat}
+    (hs : SkippedOk h pl L bs e) : SkippedOk h pl L bs' e := by
   obtain ⟨h1, h2⟩ := hs
   refine ⟨h1, ?_⟩
-  rcases h2 with h2 | ⟨cm, pbs, bumps, h3, h4, h5, h6, h7⟩
+  rcases h2 with h2 | ⟨cm, pbs, bumps, rel, hl, h3, h4, h5, h6, h7⟩
   · exact Or.inl h2
-  · exact Or.inr ⟨cm, pbs, bumps, h3, h4, fun pb hpb => hsub pb (h5 pb hpb), h6, h7⟩
+  · exact Or.inr ⟨cm, pbs, bumps, rel, hl, h3, h4, fun pb hpb => hsub pb (h5 pb hpb), h6, h7⟩
 
 theorem buildsOf_length {rp : Repo β} {is : List Nat} {bs : List (RB β)} (hb : buildsOf rp is = some bs) :
     bs.length = is.length := by
   have := (buildsOf_spec hb).1
   rw [← this]; simp [iids]
 
-theorem finish_eligOk {pl : Plug π β} {head : Nat} {st st' : St β} {c : Nat} {cm : Commit π} {fr : List Nat}
-    {rp0 : Repo β} (w : WF h st) (ok : EligOk h pl rp0 head st) (hcl : classify st.rp c = none)
-    (hcm : h.commits[c]? = some cm) (hf : finish pl head st c cm fr = .ok st') : EligOk h pl rp0 head st' := by
+theorem finish_eligOk {pl : Plug π β} {L : List Nat → Prop} {head : Nat} {st st' : St β} {c : Nat} {cm : Commit π}
+    {fr : List Nat} {rp0 : Repo β} (w : WF h st) (ok : EligOk h pl L rp0 head st) (hcl : classify st.rp c = none)
+    (hcm : h.commits[c]? = some cm) {rel : List Nat} (hL : L rel) (hf : finish pl head rel st c cm fr = .ok st') :
+    EligOk h pl L rp0 head st' := by
   obtain ⟨rp, br⟩ := st
   have hpre := finish_prefix hf
   -- generic step: old commits keep their reason, the new commit gets `hnew`
   have step : (∀ b ∈ rp.builds, b ∈ st'.rp.builds) →
       (∀ i, isCurBuild rp i = true → isCurBuild st'.rp i = true) →
       (Elig h head c → (∃ b ∈ st'.rp.builds, isCurBuild st'.rp b.iid = true ∧
-          ∃ rc, st'.rp.rcs[b.iid]? = some rc ∧ rc.commit = c) ∨ SkippedOk h pl st'.rp.builds c) →
-      EligOk h pl rp0 head st' := by
+          ∃ rc, st'.rp.rcs[b.iid]? = some rc ∧ rc.commit = c) ∨ SkippedOk h pl L st'.rp.builds c) →
+      EligOk h pl L rp0 head st' := by
     intro hsub hcur hnew e cl he h0 hel
     by_cases hec : e = c
     · subst hec; exact hnew hel
@@ -57,7 +59,8 @@ theorem finish_eligOk {pl : Plug π β} {head : Nat} {st st' : St β} {c : Nat} 
   have htag := Hist.tagged_of_get (h := h) hcm
   cases finish_cases hf with
   | irrelevant hm hrel _ =>
-    exact step (fun b hb => hb) (fun i hi => hi) (fun _ => Or.inr ⟨by rw [hmatch]; exact hm, Or.inl hrel⟩)
+    exact step (fun b hb => hb) (fun i hi => hi)
+      (fun _ => Or.inr ⟨by rw [hmatch]; exact hm, Or.inl (by rw [← hrel]; exact hL)⟩)
   | plain htags hnh _ _ =>
     have hb : (rp.addPlain c fr).builds = rp.builds := by simp only [Repo.addPlain]; split <;> rfl
     have hcur : ∀ i, isCurBuild (rp.addPlain c fr) i = isCurBuild rp i := by
@@ -78,14 +81,14 @@ theorem finish_eligOk {pl : Plug π β} {head : Nat} {st st' : St β} {c : Nat} 
     refine step (fun b hb' => by simp only [St.skipBuild]; rw [hb]; exact hb')
       (fun i hi => by simp only [St.skipBuild]; rw [hcur]; exact hi) ?_
     intro _
-    refine Or.inr ⟨by rw [hmatch]; exact hm, Or.inr ⟨cm, pbs, bumps, hcm, ?_, ?_, hmk, hnt⟩⟩
+    refine Or.inr ⟨by rw [hmatch]; exact hm, Or.inr ⟨cm, pbs, bumps, rel, hL, hcm, ?_, ?_, hmk, hnt⟩⟩
     · rw [buildsOf_length hpbs]; exact hpb
     · intro x hx
       simp only [St.skipBuild]; rw [hb]
       exact (buildsOf_spec hpbs).2 x hx
   | build bpar new pb pbs bumps bn na =>
     have hnp : rp.rcs.length ∉ rp.prevBuilds := fun hm' => by have := w.prevLt _ hm'; simp only at this; omega
-    let rc : RC := { commit := c, parents := fr, explicit := cm.isMatch, bns := buildNums cm (c == head) }
+    let rc : RC := { commit := c, parents := fr, explicit := cm.isMatch, bns := buildNums cm (c == head), time := cm.time }
     let b : RB β := { iid := rp.rcs.length, rcommit := some rp.rcs.length, parents := pb,
                       rcommits := new ++ [rp.rcs.length], bumps := bumps, bn := bn }
     have hcur1 : ∀ i, isCurBuild (St.addBuild ⟨rp, br⟩ rc bn bpar new pb bumps na).rp i =
@@ -96,13 +99,15 @@ theorem finish_eligOk {pl : Plug π β} {head : Nat} {st st' : St β} {c : Nat} 
     refine Or.inl ⟨b, by simp [St.addBuild, Repo.addRC, b], by rw [hcur1]; simp [b], rc, ?_, rfl⟩
     simp [St.addBuild, Repo.addRC, b, rc]
 
-theorem visit_eligOk (hT : h.Topo) {pl : Plug π β} {head : Nat} {rp0 : Repo β} {fuel : Nat} {s s' : St β}
+theorem visit_eligOk (hT : h.Topo) {pl : Plug π β} {L : List Nat → Prop} (hR : RelInv h pl L) {head : Nat}
+    {rp0 : Repo β} {fuel : Nat} {s s' : St β}
     {acc acc' : List Nat} {c : Nat} (w : WF h s) (hacc : ∀ r ∈ acc, r < s.rp.rcs.length)
-    (ok : EligOk h pl rp0 head s) (hv : visit h pl head fuel (s, acc) c = .ok (s', acc')) :
-    EligOk h pl rp0 head s' := by
-  have H : VisitHyps h pl head (fun s => WF h s ∧ EligOk h pl rp0 head s)
+    (ok : EligOk h pl L rp0 head s) {rel : List Nat} (hL : L rel)
+    (hv : visit h pl head fuel rel (s, acc) c = .ok (s', acc')) :
+    EligOk h pl L rp0 head s' := by
+  have H : VisitHypsL h pl head (fun s => WF h s ∧ EligOk h pl L rp0 head s)
       (fun s _ acc => ∀ r ∈ acc, r < s.rp.rcs.length) (fun s s' => s.rp.rcs.length ≤ s'.rp.rcs.length)
-      (fun _ => True) :=
+      (fun _ => True) L :=
     { Rrefl := (wf_hyps h pl head).Rrefl
       Rtrans := (wf_hyps h pl head).Rtrans
       Qmono := by
@@ -113,29 +118,30 @@ theorem visit_eligOk (hT : h.Topo) {pl : Plug π β} {head : Nat} {rp0 : Repo β
         intro s ds acc c cl hP hQ hV hc
         exact (wf_hyps h pl head).Qcls (ds := ds) hP.1 hQ hV hc
       Vstep := fun _ _ _ => trivial
+      Lstep := fun hl _ hcm => hR.step _ _ _ hl hcm
       Hfin := by
-        intro s c cm fr s' hP _ hcl hcm hQ hf
+        intro rel s c cm fr s' hl hP _ hcl hcm hQ hf
         obtain ⟨w', hle⟩ := finish_wf hP.1 hQ hcl hcm hf
-        exact ⟨⟨w', finish_eligOk hP.1 hP.2 hcl hcm hf⟩, hle⟩ }
-  exact (visit_ind hT H fuel s [] acc c s' acc' ⟨w, ok⟩ hacc trivial hv).1.2
+        exact ⟨⟨w', finish_eligOk hP.1 hP.2 hcl hcm hl hf⟩, hle⟩ }
+  exact (visit_indL hT H fuel s [] acc c s' acc' hL ⟨w, ok⟩ hacc trivial hv).1.2
 
 /-- per branch: an eligible commit of the branch is one of its builds, or its bumps are trivial -/
-def BrElig (h : Hist π) (pl : Plug π β) (pre : List Branch) (b : Branch) (rcs : List RC) (builds : List (RB β))
+def BrElig (h : Hist π) (pl : Plug π β) (L : List Nat → Prop) (pre : List Branch) (b : Branch) (rcs : List RC) (builds : List (RB β))
     (rb : RBranch β) : Prop :=
   ∀ e, SpecBuild h pre b e →
     (∃ bd ∈ rb.rbuilds, bd.rcommit = some bd.iid ∧ ∃ rc, rcs[bd.iid]? = some rc ∧ rc.commit = e) ∨
-    SkippedOk h pl builds e
+    SkippedOk h pl L builds e
 
-theorem readBranch_elig (hT : h.Topo) {pl : Plug π β} {pre : List Branch} {rp0 : Repo β} {b : Branch}
+theorem readBranch_elig (hT : h.Topo) {pl : Plug π β} {L : List Nat → Prop} (hR : RelInv h pl L) {pre : List Branch} {rp0 : Repo β} {b : Branch}
     {rp' : Repo β} {rb : RBranch β} (inv : RepoInv h pre rp0)
-    (hr : readBranch h pl pre.isEmpty rp0 b = .ok (rp', rb)) : BrElig h pl pre b rp'.rcs rp'.builds rb := by
+    (hr : readBranch h pl pre.isEmpty rp0 b = .ok (rp', rb)) : BrElig h pl L pre b rp'.rcs rp'.builds rb := by
   obtain ⟨inv', _, _⟩ := readBranch_sem hT inv hr
-  obtain ⟨st, rheads, hv, he⟩ := readBranch_inv hr
+  obtain ⟨hc0, st, rheads, hhc0, hv, he⟩ := readBranch_inv hr
   obtain ⟨w, _, _⟩ := visit_wf hT inv.wf (by simp) hv
   have hn := visit_buildsNormal hT inv.normal hv
-  have ok0 : EligOk h pl rp0 b.head ⟨rp0, Br.empty⟩ := by
+  have ok0 : EligOk h pl L rp0 b.head ⟨rp0, Br.empty⟩ := by
     intro e cl h1 h2; simp only at h1; rw [h2] at h1; cases h1
-  have ok := visit_eligOk hT inv.wf (by simp) ok0 hv
+  have ok := visit_eligOk hT hR inv.wf (by simp) ok0 (hR.init _ _ hhc0) hv
   have hs := endBranch_spec he
   obtain ⟨seen, curBuilds, _, hcb, hrbuilds, _⟩ := hs.seen
   have hcc : ∀ c, classify rp' c = classify st.rp c := classify_congr hs.done hs.visited hs.selected
@@ -158,18 +164,18 @@ theorem readBranch_elig (hT : h.Topo) {pl : Plug π β} {pre : List Branch} {rp0
     exact ⟨bd, hmem, hn bd hbd, rc, by rw [hs.rcs]; exact hrc, hce⟩
   · right; rw [hs.builds]; exact hsk
 
-theorem BrElig.ext {pl : Plug π β} {pre : List Branch} {b : Branch} {rcs : List RC} {builds : List (RB β)}
-    {rb : RBranch β} (s : BrElig h pl pre b rcs builds rb) (ext : List RC) {builds' : List (RB β)}
-    (hsub : ∀ x ∈ builds, x ∈ builds') : BrElig h pl pre b (rcs ++ ext) builds' rb := by
+theorem BrElig.ext {pl : Plug π β} {L : List Nat → Prop} {pre : List Branch} {b : Branch} {rcs : List RC} {builds : List (RB β)}
+    {rb : RBranch β} (s : BrElig h pl L pre b rcs builds rb) (ext : List RC) {builds' : List (RB β)}
+    (hsub : ∀ x ∈ builds, x ∈ builds') : BrElig h pl L pre b (rcs ++ ext) builds' rb := by
   intro e he
   rcases s e he with ⟨bd, h1, h2, rc, h3, h4⟩ | hsk
   · exact Or.inl ⟨bd, h1, h2, rc, by rw [List.getElem?_append_left (List.getElem?_eq_some_iff.mp h3).1]; exact h3, h4⟩
   · exact Or.inr (hsk.mono hsub)
 
-theorem rgraph_elig (hT : h.Topo) {pl : Plug π β} {g : Graph β} (hg : rgraph h pl = .ok g) :
+theorem rgraph_elig (hT : h.Topo) {pl : Plug π β} {L : List Nat → Prop} (hR : RelInv h pl L) {g : Graph β} {mt : Option Nat} (hg : rgraphNW h pl mt = .ok g) :
     ∀ j b rb, (branchesOf h)[j]? = some b → g.all[j]? = some rb →
-      BrElig h pl ((branchesOf h).take j) b g.rcs g.builds rb := by
-  unfold rgraph at hg
+      BrElig h pl L ((branchesOf h).take j) b g.rcs g.builds rb := by
+  unfold rgraphNW at hg
   split at hg
   · cases hg
   · rename_i rp rbs hr
@@ -178,12 +184,12 @@ theorem rgraph_elig (hT : h.Topo) {pl : Plug π β} {g : Graph β} (hg : rgraph 
       (∃ ext, rp'.rcs = rp.rcs ++ ext) ∧ ∀ x ∈ rp.builds, x ∈ rp'.builds
     have hstep : ∀ (pre : List Branch) (rp : Repo β) (b : Branch) (rp' : Repo β) (rb : RBranch β),
         RepoInv h pre rp → readBranch h pl pre.isEmpty rp b = .ok (rp', rb) →
-        RepoInv h (pre ++ [b]) rp' ∧ BrElig h pl pre b rp'.rcs rp'.builds rb ∧ K rp rp' := by
+        RepoInv h (pre ++ [b]) rp' ∧ BrElig h pl L pre b rp'.rcs rp'.builds rb ∧ K rp rp' := by
       intro pre rp b rp' rb inv hrb
       obtain ⟨h1, _, h3⟩ := readBranch_sem hT inv hrb
-      refine ⟨h1, readBranch_elig hT inv hrb, h3, ?_⟩
+      refine ⟨h1, readBranch_elig hT hR inv hrb, h3, ?_⟩
       -- builds are only appended
-      obtain ⟨st, rheads, hv, he⟩ := readBranch_inv hrb
+      obtain ⟨hc0, st, rheads, hhc0, hv, he⟩ := readBranch_inv hrb
       have hs := endBranch_spec he
       intro x hx
       rw [hs.builds]
@@ -193,7 +199,7 @@ theorem rgraph_elig (hT : h.Topo) {pl : Plug π β} {g : Graph β} (hg : rgraph 
           Qmono := fun _ _ _ _ => trivial, Qnil := fun _ _ => trivial, Qcls := fun _ _ _ _ => trivial
           Vstep := fun _ _ _ => trivial
           Hfin := by
-            intro s c cm fr s' _ _ _ _ _ hf
+            intro rel s c cm fr s' _ _ _ _ _ hf
             refine ⟨trivial, ?_⟩
             cases finish_cases hf with
             | irrelevant => exact fun x hx => hx
@@ -204,7 +210,7 @@ theorem rgraph_elig (hT : h.Topo) {pl : Plug π β} {g : Graph β} (hg : rgraph 
               intro x hx; simp only [St.addBuild, Repo.addRC]; exact List.mem_append_left _ hx }
       exact (visit_ind hT H _ _ [] [] _ _ _ trivial trivial trivial hv).2.2 x hx
     obtain ⟨_, _, hlen, hF⟩ := readBranches_ind2 (RepoInv h)
-      (fun pre b rp' rb => BrElig h pl pre b rp'.rcs rp'.builds rb) K
+      (fun pre b rp' rb => BrElig h pl L pre b rp'.rcs rp'.builds rb) K
       (fun rp => ⟨⟨[], by simp⟩, fun _ hx => hx⟩)
       (by
         rintro a b c ⟨⟨e1, h1⟩, s1⟩ ⟨⟨e2, h2⟩, s2⟩
